@@ -167,6 +167,11 @@ class UfuncMonitor:
                 got = r.data
             if refs[k] is None:
                 continue
+            if isinstance(refs[k], da.Array) != isinstance(got, da.Array) and tgt is None:
+                # the same ufunc on the underlying (Dask) data is lazy: the wrapped result is, too (and the other way round)
+                ctx.violation(o, f"np.{ufunc.__name__}: result data is {type(got).__name__}, the operation on the underlying arrays gives "
+                                 f"{type(refs[k]).__name__} (computed eagerly / container changed)", None, dict(feats, what="container"))
+                continue
             try:
                 got = to_np(got)
                 got_exc = None
